@@ -8,8 +8,11 @@ namespace TF.Model.PolyD
 variable {α : Type}
 /-- `usize::MAX + 1` on the 64-bit targets the crate is built for -/
 def USIZE_MOD : Nat := 2 ^ 64
-/-- `truncate(k)` as compiled in the release profile (`overflow-checks = false`): `k + 1` wraps at `usize::MAX`
-    (the dev/test profile panics there) -/
+/-- `truncate(k)` as compiled **after the repair F13**: `coefficients().rev().take(k.saturating_add(1)).rev()` -/
 def truncateUsize (F : FieldOps α) (p : List α) (k : Nat) : List α :=
+  ((revNorm F p).take (min (k + 1) (USIZE_MOD - 1))).reverse
+/-- `truncate(k)` as it was compiled in the release profile **before the repair F13** (`take(k + 1)` with `k + 1` in
+    `usize`, `overflow-checks = false`): `k + 1` wraps at `usize::MAX` (the dev/test profile panicked there) -/
+def truncateBeforeF13 (F : FieldOps α) (p : List α) (k : Nat) : List α :=
   ((revNorm F p).take ((k + 1) % USIZE_MOD)).reverse
 end TF.Model.PolyD
